@@ -81,6 +81,33 @@ for n in (2, 4, 8):
       if float(met.max_eigen_value) > lam * (1 + 1e-5) + 1e-30:
         add("matrix_inverse_pth_root", [n, scale, spectrum], f"max_eigen_value {float(met.max_eigen_value):.7g} exceeds lambda_max {lam:.7g}")
 
+# eigh route on PADDED, RANK-DEFICIENT inputs: exact zeros on padding, and an accepted figure is honest
+for n, rk, pad, p_ in [(4, 1, 2, 1), (5, 3, 2, 2), (6, 4, 3, 4), (4, 3, 1, 2)]:
+  for rel in (True, False):
+    cases += 1
+    Gm = rng.randint(-3, 4, size=(n, rk)).astype(np.float64)
+    A = Gm @ Gm.T
+    N = n + pad
+    Ap = np.zeros((N, N))
+    Ap[:n, :n] = A
+    X, met = ds.matrix_inverse_pth_root(jnp.asarray(Ap, jnp.float32), p_, ridge_epsilon=1e-3, relative_matrix_epsilon=rel,
+                                        padding_start=n, eigh=True)
+    X = np.asarray(X, np.float64)
+    err = float(met.inverse_pth_root_errors)
+    inp = ["eigh padded rank-deficient", n, rk, pad, p_, rel]
+    if not np.all(np.isfinite(X)):
+      add("matrix_inverse_pth_root_eigh", inp, "result not finite")
+      continue
+    if np.any(X[n:, :] != 0) or np.any(X[:, n:] != 0):
+      add("matrix_inverse_pth_root_eigh", inp, f"padding rows/columns of the result are not exactly zero (max |entry| {np.max(np.abs(X[n:, :])):.3g})")
+      continue
+    lam = float(np.linalg.eigvalsh(A)[-1])
+    d = 1e-3 * (max(lam, 1e-6) if rel else 1.0)
+    if err < 0.1:
+      R = np.linalg.matrix_power(X[:n, :n], p_) @ (A + d * np.eye(n)) - np.eye(n)
+      if np.max(np.abs(R)) > err + 0.05:
+        add("matrix_inverse_pth_root_eigh", inp, f"residual {np.max(np.abs(R)):.3g} far above the reported error {err:.3g}")
+
 # all padding
 cases += 1
 X, met = ds.matrix_inverse_pth_root(jnp.eye(4), 4, padding_start=0)
